@@ -93,6 +93,38 @@ def _mk() -> List[Entry]:
     return out
 
 
+def siblings() -> List[Entry]:
+    """extra configurations used by C02's call-history check only: pairs of configurations of one class that share derived quantities (the same
+    grid size reached by different parameters, transposed dimensions, swapped counts) — the collisions a cache or a memo keyed by a
+    derived quantity would confuse"""
+    import jumanji.environments as E
+    from jumanji.environments.logic.minesweeper.generator import UniformSamplingGenerator as MSGen
+    from jumanji.environments.packing.flat_pack.generator import RandomFlatPackGenerator as FPGen
+    from jumanji.environments.packing.job_shop.generator import RandomGenerator as JSGen
+    from jumanji.environments.routing.cleaner.generator import RandomGenerator as CLGen
+    from jumanji.environments.routing.maze.generator import RandomGenerator as MZGen
+    from jumanji.environments.routing.robot_warehouse.generator import RandomGenerator as RWGen
+
+    out: List[Entry] = []
+
+    def add(cid, cls, build, **meta):
+        out.append(Entry(cid, cls, build, meta))
+
+    def rw(r, h):
+        return lambda **k: E.RobotWarehouse(generator=RWGen(shelf_rows=r, shelf_columns=3, column_height=h, num_agents=2, sensor_range=1, request_queue_size=2), time_limit=9, **k)
+    add("robotwarehouse-r1h5", "RobotWarehouse", rw(1, 5))     # (5 + 1) * 1 + 2 = 8 rows
+    add("robotwarehouse-r2h2", "RobotWarehouse", rw(2, 2))     # (2 + 1) * 2 + 2 = 8 rows, another floor plan
+    add("maze-7x5", "Maze", lambda **k: E.Maze(generator=MZGen(num_rows=7, num_cols=5), time_limit=9, **k))
+    add("cleaner-7x5x2", "Cleaner", lambda **k: E.Cleaner(generator=CLGen(num_rows=7, num_cols=5, num_agents=2), time_limit=11, **k))
+    add("snake-6x5", "Snake", lambda **k: E.Snake(num_rows=6, num_cols=5, time_limit=10, **k))
+    add("minesweeper-6x5", "Minesweeper", lambda **k: E.Minesweeper(generator=MSGen(num_rows=6, num_cols=5, num_mines=4), **k))
+    add("flatpack-2x3", "FlatPack", lambda **k: E.FlatPack(generator=FPGen(num_row_blocks=2, num_col_blocks=3), **k))
+    add("flatpack-3x2", "FlatPack", lambda **k: E.FlatPack(generator=FPGen(num_row_blocks=3, num_col_blocks=2), **k))
+    add("jobshop-3x4", "JobShop", lambda **k: E.JobShop(generator=JSGen(num_jobs=3, num_machines=4, max_num_ops=3, max_op_duration=3), **k))
+    add("jobshop-4x3", "JobShop", lambda **k: E.JobShop(generator=JSGen(num_jobs=4, num_machines=3, max_num_ops=3, max_op_duration=3), **k))
+    return out
+
+
 _CACHE: Optional[List[Entry]] = None
 
 
